@@ -146,7 +146,7 @@ def ensure_facts(repo=REPO, bins=True, log=sys.stderr):
         with open(okfile, "w") as f:
             json.dump({"tree_hash": th, "units": units, "extract_s": round(time.time() - t0, 1)}, f)
         print("[facts] done in %.1fs: %s" % (time.time() - t0, ", ".join(units)), file=log)
-        _gc(os.path.join(CACHE, "facts"), keep=40)
+        _gc(os.path.join(CACHE, "facts"), keep=120)
         return out
     finally:
         fcntl.flock(lock, fcntl.LOCK_UN)
